@@ -4,9 +4,27 @@ import (
 	"context"
 	"encoding/json"
 	"fmt"
+	"math"
+	"strconv"
+	"strings"
 
 	"github.com/smarthome-go/homescript/v3/homescript/errors"
 )
+
+// A float keeps its fraction in JSON (`2.0`, not `2`), otherwise it would be read back as an integer.
+type jsonFloat float64
+
+func (f jsonFloat) MarshalJSON() ([]byte, error) {
+	n := float64(f)
+	if math.IsInf(n, 0) || math.IsNaN(n) {
+		return nil, fmt.Errorf("unsupported float64")
+	}
+	prec := -1
+	if math.Trunc(n) == n {
+		prec = 1 // Force ".0" for integers.
+	}
+	return strconv.AppendFloat(nil, n, 'f', prec, 64), nil
+}
 
 func marshalValue(self Value, span errors.Span, isInner bool, executor Executor) (interface{}, bool, *Interrupt) {
 	switch self := self.(type) {
@@ -15,7 +33,7 @@ func marshalValue(self Value, span errors.Span, isInner bool, executor Executor)
 	case ValueInt:
 		return self.Inner, false, nil
 	case ValueFloat:
-		return self.Inner, false, nil
+		return jsonFloat(self.Inner), false, nil
 	case ValueBool:
 		return self.Inner, false, nil
 	case ValueAnyObject:
@@ -29,8 +47,8 @@ func marshalValue(self Value, span errors.Span, isInner bool, executor Executor)
 			if err != nil {
 				return nil, false, err
 			}
-			// skip builtin functions
-			if marshaled != nil && !skipNull {
+			// skip builtin functions (but keep `null` and `none`)
+			if !skipNull {
 				output[key] = marshaled
 			}
 		}
@@ -46,8 +64,8 @@ func marshalValue(self Value, span errors.Span, isInner bool, executor Executor)
 			if err != nil {
 				return nil, false, err
 			}
-			// skip builtin functions
-			if marshaled != nil && !skipNull {
+			// skip builtin functions (but keep `null` and `none`)
+			if !skipNull {
 				output[key] = marshaled
 			}
 		}
@@ -87,6 +105,19 @@ func unmarshalValue(span errors.Span, self interface{}) (*Value, *Interrupt) {
 	switch self := self.(type) {
 	case string:
 		return NewValueString(self), nil
+	case json.Number:
+		// The literal decides: a number written with a fraction or an exponent is a float (`2.0` must not
+		// come back as the integer 2), everything else an integer.
+		if !strings.ContainsAny(self.String(), ".eE") {
+			if intValue, err := self.Int64(); err == nil {
+				return NewValueInt(intValue), nil
+			}
+		}
+		floatValue, err := self.Float64()
+		if err != nil {
+			return nil, NewRuntimeErr(fmt.Sprintf("Cannot parse JSON number `%s`: %s", self.String(), err.Error()), JsonErrorKind, span)
+		}
+		return NewValueFloat(floatValue), nil
 	case float64:
 		if float64(int64(self)) == self {
 			return NewValueInt(int64(self)), nil
